@@ -216,12 +216,17 @@ impl Mempool {
                 Some(block) => block.timestamp,
             };
 
-            assert!(
-                current_timestamp > previous_block_timestamp,
-                "current timestamp = {:?} should be larger than previous block timestamp : {:?}",
-                StatVariable::format_timestamp(current_timestamp),
-                StatVariable::format_timestamp(previous_block_timestamp)
-            );
+            // the tip may carry a timestamp ahead of our clock (nothing refuses a block
+            // from a peer whose clock runs fast). we cannot build on it until our clock
+            // has passed it, so this is "not yet", not a reason to take the node down.
+            if current_timestamp <= previous_block_timestamp {
+                debug!(
+                    "current timestamp = {:?} is not later than previous block timestamp : {:?}. not bundling",
+                    StatVariable::format_timestamp(current_timestamp),
+                    StatVariable::format_timestamp(previous_block_timestamp)
+                );
+                return None;
+            }
             block_timestamp_gap =
                 Duration::from_millis(current_timestamp - previous_block_timestamp).as_secs();
             public_key = wallet.public_key;
